@@ -64,6 +64,7 @@ type Run struct {
 	nontrivial map[string]struct{}
 	outcomes   map[string]struct{}
 
+	nontrivialN int64
 	evaluations int64
 	transitions int64
 	traces      int64
@@ -104,6 +105,10 @@ func (r *Run) Outcome(k string) {
 	}
 	r.mu.Unlock()
 }
+
+// NonTrivialN counts n more distinct non-trivial cases that are distinct by construction of
+// the enumeration (no key is stored).
+func (r *Run) NonTrivialN(n int64) { atomic.AddInt64(&r.nontrivialN, n) }
 
 func (r *Run) Sample(s any) {
 	r.mu.Lock()
@@ -248,7 +253,7 @@ func (r *Run) writeEvidence(violations, knownHits int) {
 		"transitions":                   r.transitions,
 		"traces_validated_against_impl": r.traces,
 		"evaluations":                   r.evaluations,
-		"distinct_nontrivial":           len(r.nontrivial),
+		"distinct_nontrivial":           int64(len(r.nontrivial)) + r.nontrivialN,
 		"rule":                          r.Rule,
 		"samples":                       r.samples,
 		"exhaustive":                    r.exhaustive,
@@ -276,7 +281,7 @@ func (r *Run) writeEvidence(violations, knownHits int) {
 		fmt.Fprintf(os.Stderr, "cannot write evidence: %v\n", err)
 	}
 	fmt.Printf("summary property=%s tier=%s evaluations=%d states=%d transitions=%d traces=%d nontrivial=%d outcomes=%d exhaustive=%v violations=%d wall=%.1fs\n",
-		r.Prop, r.Tier, r.evaluations, states, r.transitions, r.traces, len(r.nontrivial), len(r.outcomes), r.exhaustive, violations, time.Since(r.start).Seconds())
+		r.Prop, r.Tier, r.evaluations, states, r.transitions, r.traces, int64(len(r.nontrivial))+r.nontrivialN, len(r.outcomes), r.exhaustive, violations, time.Since(r.start).Seconds())
 }
 
 // FinishReplay prints the failures of a replayed case; no evidence or replay file is written.
